@@ -139,8 +139,10 @@ def search(repo: str, carrier_filter: Optional[str] = None, known=()) -> dict:
     cases = 0
     mism = []
     for line in outp.splitlines():
-        if not line.startswith('R|'):
+        m_ = re.match(r'^(?:test \S+ \.\.\. )?(R\|.*)$', line)
+        if not m_:
             continue
+        line = m_.group(1)
         parts = line.split('|')
         carrier, value, facets, ok = parts[1], '|'.join(parts[2:-2]), parts[-2], parts[-1]
         cases += 1
